@@ -14,8 +14,13 @@ _installed = False
 CURRENT = None          # the open Log, or None
 
 
+class LogFull(KeyboardInterrupt):
+    """a case produced an absurd number of events (livelock): abort it; derives from KeyboardInterrupt so that
+    neither tornado's coroutine runner nor asyncio's callback handler swallows it"""
+
+
 class Log:
-    __slots__ = ('ev', 'clock', 'names', '_refs', 'classes', 'cause_stack')
+    __slots__ = ('ev', 'clock', 'names', '_refs', 'classes', 'cause_stack', 'cap')
 
     def __init__(self, clock=None):
         self.ev = []
@@ -24,6 +29,7 @@ class Log:
         self._refs = {}          # id(node) -> weakref (to detect id reuse)
         self.classes = {}        # id(node) -> class name
         self.cause_stack = []    # ids of the metadata dicts of the enclosing update() calls
+        self.cap = 250000
 
     def name(self, node, label):
         self.names[id(node)] = label
@@ -45,6 +51,9 @@ class Log:
 
     def add(self, kind, node, *rest):
         self.ev.append((len(self.ev), self.clock(), kind, node) + rest)
+        if len(self.ev) > self.cap:
+            self.cap = 10 ** 12          # raise once
+            raise LogFull()
 
     def of(self, *kinds):
         return [e for e in self.ev if e[2] in kinds]
